@@ -665,6 +665,10 @@ def check(program: Program, run: Run) -> None:
                     run.finding(f"C16/sibling-disagree:{f.cls.qualname}.{a}", f"{f.qualname} calls self.{a}.replace_table(...) while {sf.qualname} compares self.{a} with the table and assigns: {a} holds a table-like object without replace_table (the base-class form raises TypeError for a Table)",
                                 where=f.loc(), rule="R3")
 
+    # ---- the mechanism keeps no state between renderings (shared rule, see families.inherit_history_dependence)
+    from ..families import inherit_history_dependence
+    run.rule("history: no function of this property's mechanism writes object / class / parameterizer state while rendering or memoises on a copied object (inherited from C02 and C01)")
+    inherit_history_dependence(program, run, "C16", r"^Term\.(fields_|tables_|find_|nodes_)|\.replace_table", "what a term reports about its tables is computed before replace_table and travels with the copy")
 
 def _narrowed_classes(program: Program, f: FuncInfo, call: ast.Call, recv: ast.expr):
     """classes named by an enclosing `isinstance(<recv>, (...))` test whose true-branch contains the call"""
